@@ -12,7 +12,7 @@
    N x N per-pair block re-read in the order nl2.  veq = pointwise equality of rationals.
 
    Statements only; proofs in Proofs/C14xRhs.v, C14xTop.v. *)
-From EoNV Require Import Prelude Graph Vec Rhs2D VecP C14xDef C14xRhs C14xTop C14xEx.
+From EoNV Require Import Prelude Graph Aux Vec IC Wrappers Rhs2D VecP C14xDef C14xRhs C14xTop C14xOut C14xWrap C14xEx.
 From Coq Require Import Permutation.
 
 Section C14x.
@@ -108,6 +108,84 @@ Proof. exact (conj ex_wrong_index_refused ex_wrong_index_not_equivariant). Qed.
 Example C14x_wf_satisfiable : nl_wfb exG ex_nodelist ex_idx = true.
 Proof. exact ex_wf. Qed.
 
+(* ====================================================================== *)
+(* degree-based ODE models: every *_from_graph wrapper of Model/Wrappers.v   *)
+(* ====================================================================== *)
+(* g' is an isomorphic copy of g under the injective renaming phi: G.nodes() in any order, every adjacency list in
+   any order (hence G.edges() in any order and orientation: see C14x_iso_edges_differ); the request
+   (initial_infecteds, initial_recovereds, rho) is renamed along phi (map_req).  Both graphs simple, undirected. *)
+Section C14x_wrappers.
+Variables (g g' : graph) (phi : node -> node).
+Hypothesis WG : wf_ugraph g = true.
+Hypothesis WG' : wf_ugraph g' = true.
+Hypothesis Hinj : forall u v, phi u = phi v -> u = v.
+Hypothesis Hnodes : Permutation (gnodes g') (map phi (gnodes g)).
+Hypothesis Hadj : forall u, In u (gnodes g) -> Permutation (gadj g' (phi u)) (map phi (gadj g u)).
+
+(* the quantities the wrappers read off the graph *)
+Theorem C14x_initialize_node_status_equivariant : forall I0 R0,
+  match initialize_node_status g' (map phi I0) (option_map (map phi) R0), initialize_node_status g I0 R0 with
+  | Ok st', Ok st => forall u, st' (phi u) = st u
+  | Err e', Err e => e' = e
+  | _, _ => False
+  end.
+Proof. exact (iso_initialize_node_status g g' phi Hinj Hnodes). Qed.
+Theorem C14x_count_edge_types_invariant : forall st st', (forall u, st' (phi u) = st u) ->
+  let c' := count_edge_types_st g' st' in let c := count_edge_types_st g st in
+  fst (fst c') == fst (fst c) /\ snd (fst c') == snd (fst c) /\ snd c' == snd c.
+Proof. exact (iso_count_edge_types g g' phi WG WG' Hnodes Hadj). Qed.
+Theorem C14x_symmetric_edge_sum_invariant : forall F F', (forall u v, F u v == F v u) -> (forall u v, F' u v == F' v u) ->
+  (forall u v, F' (phi u) (phi v) == F u v) -> esum g' F' == esum g F.
+Proof. exact (esum_iso g g' phi WG WG' Hnodes Hadj). Qed.
+Theorem C14x_degree_distribution_invariant :
+  (forall k, Pk (degseq g') k = Pk (degseq g) k) /\ mean_degree g' == mean_degree g /\
+  (forall f f', (forall k, f' k == f k) -> sumPk g' f' == sumPk g f) /\ Ks_of g' = Ks_of g /\ classes g' = classes g.
+Proof.
+  exact (conj (iso_Pk g g' phi Hnodes Hadj) (conj (iso_mean_degree g g' phi Hnodes Hadj)
+        (conj (iso_sumPk g g' phi Hnodes Hadj) (conj (iso_Ks g g' phi Hnodes Hadj) (iso_classes g g' phi Hnodes Hadj))))).
+Qed.
+Theorem C14x_get_Nk_and_IC_invariant : forall rq sir, get_Nk_and_IC g' (map_req phi rq) sir = get_Nk_and_IC g rq sir.
+Proof. exact (iso_get_Nk_and_IC g g' phi Hinj Hnodes Hadj). Qed.
+Theorem C14x_get_NkNl_and_IC_invariant : forall rq,
+  req nknl_eq (get_NkNl_and_IC g' (map_req phi rq)) (get_NkNl_and_IC g rq).
+Proof. exact (iso_get_NkNl_and_IC g g' phi WG WG' Hinj Hnodes Hadj). Qed.
+Theorem C14x_neighbour_counts_invariant : forall p p' u, (forall v, p' (phi v) = p v) -> In u (gnodes g) ->
+  nbr_count g' p' (phi u) = nbr_count g p u.
+Proof. exact (iso_nbr_count g g' phi Hadj). Qed.
+
+(* whole outputs.  All 17 modelled entry points, every request (also malformed ones: the same error), full data or not,
+   every solver that is a function of the numbers it is given: the same error, or outputs with the same series names whose
+   values are equal rationals at every time index (per degree class and per pair of classes too) *)
+Theorem C14x_wrapper_outputs_invariant : forall sv, solver_proper sv -> forall e rq full,
+  req oeq (run_entry e g' (map_req phi rq) full sv) (run_entry e g rq full sv).
+Proof. exact (iso_run_entry g g' phi WG WG' Hinj Hnodes Hadj). Qed.
+(* the six wrappers whose solver arguments are counts: literally identical outputs, for EVERY solver *)
+Theorem C14x_wrapper_outputs_identical : forall e rq full sv, In e [eSISm; eSIRm; eSIShm; eSIRhm; eSISed; eSIRed] ->
+  run_entry e g' (map_req phi rq) full sv = run_entry e g rq full sv.
+Proof. exact (iso_run_entry_eq g g' phi Hinj Hnodes Hadj). Qed.
+(* row 0, over the function that is extracted and compared with the code (component ic) *)
+Theorem C14x_wrapper_row0_invariant : forall e rq full,
+  req row0_eq (row0_entry e g' (map_req phi rq) full) (row0_entry e g rq full).
+Proof. exact (iso_row0_entry g g' phi WG WG' Hinj Hnodes Hadj). Qed.
+End C14x_wrappers.
+
+(* non-vacuity: the triangle-with-pendant graph and its copy under u -> 100 - u with other node / adjacency order;
+   G.edges() differs in order and orientation; an explicit-set SIR request produces a non-empty output on both *)
+Example C14x_iso_hypotheses_satisfiable :
+  wf_ugraph exG = true /\ wf_ugraph exG' = true /\ (forall u v, ex_phi_g u = ex_phi_g v -> u = v) /\
+  Permutation (gnodes exG') (map ex_phi_g (gnodes exG)) /\
+  (forall u, In u (gnodes exG) -> Permutation (gadj exG' (ex_phi_g u)) (map ex_phi_g (gadj exG u))).
+Proof. exact (conj (proj1 ex_iso_wf) (conj (proj2 ex_iso_wf) (conj ex_phi_g_inj (conj ex_iso_nodes ex_iso_adj)))). Qed.
+Example C14x_iso_edges_differ :
+  gedges exG = [(10, 20); (10, 30); (20, 30); (20, 40)]%N /\ gedges exG' = [(60, 80); (90, 70); (90, 80); (70, 80)]%N.
+Proof. exact ex_iso_edges_differ. Qed.
+Example C14x_iso_output_nontrivial :
+  match row0_entry eSIRp exG ex_rq true, row0_entry eSIRp exG' (map_req ex_phi_g ex_rq) true with
+  | Ok a, Ok b => negb (Nat.eqb (length a) 0) && Nat.eqb (length a) (length b)
+  | _, _ => false
+  end = true.
+Proof. exact ex_iso_output_nontrivial. Qed.
+
 Print Assumptions C14x_node_rhs_equivariant.
 Print Assumptions C14x_node_rhs_equivariant_b.
 Print Assumptions C14x_node_outputs_invariant.
@@ -123,3 +201,16 @@ Print Assumptions C14x_action_nontrivial.
 Print Assumptions C14x_field_nonzero.
 Print Assumptions C14x_label_as_index_refused.
 Print Assumptions C14x_wf_satisfiable.
+Print Assumptions C14x_initialize_node_status_equivariant.
+Print Assumptions C14x_count_edge_types_invariant.
+Print Assumptions C14x_symmetric_edge_sum_invariant.
+Print Assumptions C14x_degree_distribution_invariant.
+Print Assumptions C14x_get_Nk_and_IC_invariant.
+Print Assumptions C14x_get_NkNl_and_IC_invariant.
+Print Assumptions C14x_neighbour_counts_invariant.
+Print Assumptions C14x_wrapper_outputs_invariant.
+Print Assumptions C14x_wrapper_outputs_identical.
+Print Assumptions C14x_wrapper_row0_invariant.
+Print Assumptions C14x_iso_hypotheses_satisfiable.
+Print Assumptions C14x_iso_edges_differ.
+Print Assumptions C14x_iso_output_nontrivial.
